@@ -388,6 +388,35 @@ def run(ctx) -> list[Inst]:
                      f"the last declaration that parses, ANTLR simply stops - trailing text that is not MAL ('}} }} junk', "
                      f"an 'asset' outside any category) is ignored and the file compiles to the specification of its prefix"),
                 file=rel, line=parse_node.lineno, props=props))
+    # (a9) an error strategy is per-parser state: DefaultErrorStrategy keeps errorRecoveryMode / lastErrorIndex /
+    # lastErrorStates between calls and is only reset by the parser it belongs to.  One instance shared by all parsers
+    # (a class attribute, a module-level object) stays in recovery mode after a failed compilation and then suppresses
+    # the first error of the next file.
+    for n in own_nodes(f.node):
+        if isinstance(n, ast.Assign) and isinstance(n.targets[0], ast.Attribute) \
+                and n.targets[0].attr in ('_errHandler', 'errHandler') and isinstance(n.targets[0].value, ast.Name) \
+                and n.targets[0].value.id == parser_var:
+            v = n.value
+            construct9 = '(a) the error strategy installed on the parser is a fresh object'
+            if isinstance(v, ast.Call):
+                insts.append(Inst(RULE, f.short, construct9, 'ok', msg=stmt_text(v, 50), file=rel, line=n.lineno, props=props))
+            elif isinstance(v, (ast.Attribute, ast.Name)):
+                local_fresh = False
+                if isinstance(v, ast.Name):
+                    for d in cfg.reaching(cfg.node_of(n), v.id):
+                        if d.kind == 'stmt' and isinstance(d.ast, ast.Assign) and isinstance(d.ast.value, ast.Call):
+                            local_fresh = True
+                if local_fresh:
+                    insts.append(Inst(RULE, f.short, construct9, 'ok', msg='constructed in this call', file=rel,
+                                      line=n.lineno, props=props))
+                else:
+                    insts.append(Inst(
+                        RULE, f.short, construct9, 'violation',
+                        msg=(f"'{stmt_text(n)}' hands every parser the same strategy object: ANTLR's error strategies keep "
+                             f"recovery state (errorRecoveryMode, lastErrorIndex) that only the owning parser resets; after "
+                             f"one file failed, the shared object is still in recovery mode and swallows the first syntax "
+                             f"error of the next compilation - a malformed file compiles"),
+                        file=rel, line=n.lineno, props=props))
     # (a3) compile() is re-entered for every include (through the visitor): per-compilation error state
     # must not be reset inside it while an outer invocation still has to test it
     resets = []
